@@ -525,6 +525,7 @@ func (g *gen) statement() string {
 //  (B) every binary / comparison operator followed by every unary operator, written with all blanks, with no blanks at all
 //      and with a blank only between the two operators, over three operand kinds.
 //  (C) signed numeric literals (the folded IntVal "-1" node) in every operand position.
+//  (D) every tighter-binding construct around every parenthesised looser expression (parentheses that precedence requires).
 // Statements the parser rejects are skipped (counted); accepted ones go through the round-trip oracle and, when their tree
 // is in the model fragment, through the three ties.
 func adjacencyFamily() []string {
@@ -576,6 +577,19 @@ func adjacencyFamily() []string {
 			out = append(out, "select "+e+" from t", "select a from t where "+e+" group by "+e+" order by "+e+" limit "+l+", "+l)
 		}
 		out = append(out, "select * from f(x => "+l+", y => "+l+") g trigger counting "+l+", after delay "+l)
+	}
+	// (D) parentheses that precedence requires: every tighter-binding construct around every parenthesised looser expression
+	// (the printer never adds parentheses itself; the tree keeps ParenExpr nodes)
+	inner := []string{"a + b", "a - b", "a * b", "-a", "a and b", "a or b", "a = b", "not a", "a is null", "a between 1 and 2", "a in (1)", "a like b",
+		"a ~ b", "case when a then b end", "a->b", "a::mytype", "a[1]", "select a from t", "interval 1 day", "f(a)", "1", "-1", "a"}
+	outer := []string{"%s->c", "%s->*", "%s[1]", "x[%s]", "%s::mytype", "-%s", "~%s", "!%s", "%s * x", "x * %s", "x - %s", "%s - x", "not %s", "%s is null", "%s like x",
+		"x like %s", "%s = x", "x = %s", "%s between 1 and 2", "x between %s and 2", "x between 1 and %s", "%s in (1)", "x in (%s)", "f(%s)", "convert(%s, mytype)",
+		"interval %s day", "case %s when 1 then 2 end", "%s and x", "x and %s", "x or %s", "(%s)"}
+	for _, in := range inner {
+		for _, o := range outer {
+			e := strings.ReplaceAll(o, "%s", "("+in+")")
+			out = append(out, "select "+e+" from t")
+		}
 	}
 	return out
 }
@@ -896,14 +910,14 @@ func runCases(f lib.Flags) error {
 			nontrivial = strings.Contains(low, "trigger") || strings.Contains(low, "=>") || strings.Contains(low, "->") || strings.Contains(low, "::") || strings.Contains(low, "lookup")
 		}
 		if origin == "token_adjacency_family" && o.what == "" {
-			// all of the family goes through the round-trip oracle above; to keep the Coq side short only every fourth
+			// all of the family goes through the round-trip oracle above; to keep the Coq side short only every sixth
 			// in-fragment statement is also listed as a case (ties), the others are counted
 			famSeen++
 			if !inModel {
 				cf.Count("token_adjacency_family_round_trip_ok_outside_model (counted, not listed as cases)")
 				return
 			}
-			if famSeen%4 != 0 {
+			if famSeen%6 != 0 {
 				cf.Count("token_adjacency_family_round_trip_ok_in_model (counted, not listed as cases)")
 				return
 			}
